@@ -56,10 +56,10 @@ LimitAt(ev, u, j) ==
   LET adds == {p \in AddIdx(ev, u) : p[1] < j} IN
   IF adds = {} THEN 0
   ELSE LET last == CHOOSE p \in adds : \A q \in adds : q[1] <= p[1] IN ev[last[1]].items[last[2]].maxsim
-(* runs of the task as it is queued now: a cancelled task is gone, what is added later under the same UID is a new task; *)
-(* a replaced task stays the same task                                                                                   *)
-CancelIdx(ev, u) == {i \in 1..Len(ev) : ev[i].e = "Req" /\ \E k \in 1..Len(ev[i].items) : ev[i].items[k].uid = u /\ ev[i].items[k].kind = "cancel" /\ ItemOk(ev[i], k)}
-RealRuns(ev, u, j) == {s \in 1..(j - 1) : ev[s].e = "Spawn" /\ ev[s].uid = u /\ ~ev[s].norun /\ ~\E c \in CancelIdx(ev, u) : s < c /\ c < j}
+(* runs of the task as it is queued now: once a task has left the queue (cancelled, or taken off after its last occurrence) *)
+(* what is added later under the same UID is a new task; a replaced task stays the same task                                *)
+Absent(ev, u, x) == ev[x].e = "State" /\ ~\E t \in SeqSet(ev[x].tasks) : t.uid = u
+RealRuns(ev, u, j) == {s \in 1..(j - 1) : ev[s].e = "Spawn" /\ ev[s].uid = u /\ ~ev[s].norun /\ ~\E x \in (s + 1)..(j - 1) : Absent(ev, u, x)}
 StillRunning(ev, s, j) == ~\E x \in (s + 1)..(j - 1) : ev[x].e = "Exit" /\ ev[x].pid = ev[s].pid
 NotYetReaped(ev, s, j) == ~\E x \in (s + 1)..(j - 1) : ev[x].e = "Deliver" /\ ev[x].k = "chld" /\ ev[x].pid = ev[s].pid
 SpawnLimitOk(ev, j) ==
@@ -77,7 +77,9 @@ C12Holds(ev) == \A j \in 1..Len(ev) : ev[j].e = "Spawn" => SpawnLimitOk(ev, j)
 (* ---------- C11: the queue is a per-user map by UID ---------- *)
 Resolvable(p) == p \in {0, 1000, 1001, 1002} \cup (2000..2063)
 OwnerUid(o) == CASE o = "root" -> 0 [] o = "alice" -> 1000 [] o = "bob" -> 1001 [] o = "carol" -> 1002 [] OTHER -> -1
-OwnerOf(it) == IF Has(it, "owner_uid") THEN it.owner_uid ELSE IF Has(it, "owner_name") THEN OwnerUid(it.owner_name) ELSE -2
+(* an X-ECHS-OWNER that names no existing user says nothing: the task is the sender's (it can never become someone else's) *)
+RawOwner(it) == IF Has(it, "owner_uid") THEN it.owner_uid ELSE IF Has(it, "owner_name") THEN OwnerUid(it.owner_name) ELSE -2
+OwnerOf(it) == IF Resolvable(RawOwner(it)) THEN RawOwner(it) ELSE -2
 (* M: set of <<uid, owner>> *)
 OwnerIn(M, u) == IF \E m \in M : m[1] = u THEN (CHOOSE m \in M : m[1] = u)[2] ELSE -1
 ItemAllowed(M, p, it) ==
@@ -113,7 +115,8 @@ MapRun(ev, i, M, everHad) ==
     THEN /\ (e.what = "sched" => e.status = 200 /\ SeqSet(e.uids) = {m[1] : m \in {x \in M : x[2] = e.peer}})
          /\ (e.what = "queue" => IF e.peer \in everHad THEN e.status = 200 /\ e.complete /\ SeqSet(e.uids) = {m[1] : m \in {x \in M : x[2] = e.peer}}
                                  ELSE e.status = 404)
-         /\ (e.what = "other" => e.status = 403)         \* asking for another user's view
+         (* asking for another user's view: refused, or answered with the caller's own view - never the other user's *)
+         /\ (e.what = "other" => (e.status = 403 \/ SeqSet(e.uids) \subseteq {m[1] : m \in {x \in M : x[2] = e.peer}}))
          /\ MapRun(ev, i + 1, M, everHad)
     ELSE MapRun(ev, i + 1, M, everHad)
 C11Holds(ev) == MapRun(ev, 1, {}, {})
